@@ -25,7 +25,8 @@ CHECKS = {
         technique="model-based testing of raw protocol histories against a 3-state reference model (trace equality) over real "
                   "loopback websockets; exhaustive enumeration of all histories of depth <= 4 (quick) / <= 5 (thorough) over a "
                   "7-letter alphabet plus Hypothesis histories with foreign-sid / unknown-type messages, pipelined request pairs, "
-                  "reconnects inside the cleanup pause, clean and hard restarts and a companion service",
+                  "reconnects inside the cleanup pause, clean and hard restarts, a companion service, and survivable I/O errors "
+                  "(ENOSPC/EIO) injected at every file-system mutation of a configuration or index upload (before-or-after oracle)",
         text="Histories of config(c1|c2), upload(e1|e2), search, foreign-sid, unknown-type messages, two requests pipelined on one "
              "connection, reconnects (also inside the server's cleanup pause), clean/hard restarts and a companion service sharing a "
              "40-character id prefix on one sid are executed against the real handler; init-echo states, ok/refused outcomes and result payloads must equal "
